@@ -132,7 +132,9 @@ impl Rule {
         
         let mut res_word = word; 
         for i in sub_rules {
+            #[cfg(asca_verif)] crate::verif::emit(|| crate::verif::Event::SubBegin { word: res_word.clone() });
             res_word = i.apply(res_word)?;
+            #[cfg(asca_verif)] crate::verif::emit(|| crate::verif::Event::SubEnd { word: res_word.clone() });
         }
         Ok(res_word)
     }
